@@ -518,8 +518,9 @@ func (w *World) Report(peer string, upSeid uint64, cause uint8) []pfcpx.Dgram {
 		b[i] = byte(upSeid >> (8 * i))
 	}
 
+	tms := int(time.Since(w.t0) / time.Millisecond)
 	_, _ = w.NotifyC.Write(b)
-	got := p.WaitN(1, 300*time.Millisecond)
+	got := p.WaitN(1, 150*time.Millisecond)
 	ds := p.Drain()
 	srr := []map[string]interface{}{}
 
@@ -539,10 +540,12 @@ func (w *World) Report(peer string, upSeid uint64, cause uint8) []pfcpx.Dgram {
 
 	late := p.Drain()
 	for _, d := range late {
-		srr = append(srr, w.respJSON(d))
+		m := w.respJSON(d)
+		m["dldr"], m["hasDldr"], m["report"] = maxInt(d.DLDRPdr, 0), d.DLDRPdr >= 0, maxInt(d.Report, 0)
+		srr = append(srr, m)
 	}
 
-	ev := map[string]interface{}{"ev": "report", "peer": p.Name, "u": w.UpTok.Reg(upSeid), "srr": srr, "cause": int(cause)}
+	ev := map[string]interface{}{"ev": "report", "peer": p.Name, "u": w.UpTok.Reg(upSeid), "srr": srr, "cause": int(cause), "t": tms}
 	t := w.Bess.Snapshot()
 	ev["dp"] = w.dpJSON()
 	ev["cmds"] = t.Cmds
